@@ -43,6 +43,9 @@ TRUSTED_BASE = [
     "-ffp-contract=off on the C++ side; dyadic case data (checked by the model-side parser)",
     "idrs: harness op idrs.raw (the constructor's std::mt19937 statements) and the read-only access to the private member idrs::P "
     "through an explicit template instantiation in harness/drv_krylov.cpp",
+    "block / complex valued systems: harness/drv_krylov_vt.cpp (preconditioner class Pre<V>: copy / vmul / spmv at the value type), the "
+    "expansion of block and complex systems to real scalar systems in tools/props/krylov_vt.py (z = a+ib -> [[a,-b],[b,a]]), "
+    "ocaml/krylov/ops_krylov_vt.ml (tolerance comparison of the oracle vt.truth; the recomputation itself is the extracted Krylov.true_res)",
 ]
 ASSUMPTIONS = [
     "C01-A1 (residual invariants: cg, bicgstab, bicgstabl, idrs) assume A (and P, except idrs) linear and length preserving and a commutative ring "
@@ -51,6 +54,13 @@ ASSUMPTIONS = [
     "idrs: the raw draws of std::mt19937 / uniform_real_distribution in the constructor are an input of the model, reproduced by "
     "the harness op idrs.raw (same statements as the constructor; OMP_NUM_THREADS=1 in the runner); the exact build draws doubles and converts them",
     "the quantitative clause (1e-8 within 100 iterations on model problems) is measured in the double build, not proved",
+    "block valued systems (static_matrix<vq::Q,2,2>): the model of a solver is the SCALAR model of Krylov.v run on the expanded system "
+    "(inner products of block entries, block spmv/vmul and the scalar coefficients coincide with those of the expanded system in exact "
+    "arithmetic; idrs: the block constructor stores one draw in both components of an entry, the model receives the duplicated draws)",
+    "complex valued systems (std::complex<double>): truthfulness only, |returned - true| <= 2^-40 + 2^-30 * true with the true relative residual "
+    "recomputed exactly on the expanded real system; no model of the complex recurrences (complex coefficients) is compared",
+    "rate clause (C01_richardson_rate*, C01_richardson_amg_*): ordered commutative ring, damping = 1, a solution u of A u = f exists; the "
+    "explicit factor 5/16 is proved for ONE concrete hierarchy (1-D Poisson n = 4, Jacobi 1/2, V(1,1)); 'rate = spectral radius' is not formalised",
 ]
 RULE = ("cases derived from VERIF_SEED by tools/props/C01.py; distinct = distinct case payload; non-trivial = implementation "
         "output contains a non-zero value and is not an exception")
